@@ -86,17 +86,41 @@ def parse_cons(tokens, n):
     return res
 
 
+def reported_point(t, dim):
+    """the point an observation line exhibits (last_generator of the object), as Fractions, or None"""
+    from fractions import Fraction
+    pt = None
+    if t[2] == "solve" and len(t) > 3 and t[3] == "optimized" and "pt" in t:
+        k = t.index("pt"); pt = t[k + 1: k + 2 + dim]
+    elif t[2] == "solve" and len(t) > 3 and t[3] == "unbounded" and "fp" in t:
+        k = t.index("fp"); pt = t[k + 1: k + 2 + dim]
+    elif t[2] == "sat" and "fp" in t:
+        k = t.index("fp"); pt = t[k + 1: k + 2 + dim]
+    elif t[2] in ("fpoint", "opoint") and len(t) > 3:
+        pt = t[3: 4 + dim]
+    if not pt or pt[0] in ("none", "timeout") or len(pt) < dim + 1:
+        return None
+    try:
+        d = int(pt[0])
+        return [Fraction(int(v), d) for v in pt[1: 1 + dim]]
+    except ValueError:
+        return None
+
+
 def pending_batch_profile(lin):
     """Replays the lineage of one object and describes the batch of constraints that was pending when
-    the last processing call (any observer) ran: returns a set of structural facts.
-    Mirrors MIP_Problem::parse_constraints: a pending `a*x_j >= 0` (a > 0, single variable, zero
+    the last processing call (any observer) ran, relative to the point the object exhibited before
+    (its `last_generator`): returns a set of structural facts.
+    Mirrors MIP_Problem::parse_constraints: a pending multi-variable inequality that the previous point
+    satisfies gets no artificial variable; a pending `a*x_j >= 0` (a > 0, single variable, zero
     inhomogeneous term) on a variable that is already mapped and split re-merges the split."""
-    facts = set()
     dim, mapped_dim = 0, 0           # space dimension now / when constraints were last processed
     nonneg = set()                   # variables known nonnegative when last processed
     batch = []                       # constraints pending
     last_profile = set()
     processed_once = False
+    ints_now, mip_when_processed = False, False   # integer variables declared / at the last processing call
+    last_point = None                # point exhibited by the object (None: none known)
     for t in lin:
         if t[0] == "new":
             dim = int(t[2])
@@ -111,21 +135,28 @@ def pending_batch_profile(lin):
                 batch += parse_cons(t[4:], dim)
             elif t[2] == "add_dims":
                 dim += int(t[3])
+            elif t[2] == "add_ints":
+                ints_now = True
         elif t[0] == "obs" and t[2] != "okinv":
             prof = set()
-            remerge, multi = False, False
+            remerge_negative, multi_satisfied = False, False
+            pt = (last_point + [0] * dim)[:dim] if last_point is not None else None
             for rel, k, a in batch:
                 nz = [j for j, v in enumerate(a) if v != 0]
-                if len(nz) >= 2 and rel == ">=":
-                    multi = True
-                if len(nz) == 1:
+                if len(nz) >= 2 and rel == ">=" and pt is not None:
+                    if sum(ai * xi for ai, xi in zip(a, pt)) + k >= 0:
+                        multi_satisfied = True      # parse_constraints: is_satisfied_inequality
+                if len(nz) == 1 and pt is not None:
                     j, v = nz[0], a[nz[0]]
-                    if rel == ">=" and k == 0 and v > 0 and j < mapped_dim and j not in nonneg and processed_once:
-                        remerge = True
-            if remerge:
-                prof.add("pending_sign_restriction_remerges_split_variable")
-                if multi:
-                    prof.add("pending_sign_restriction_remerges_split_variable_with_multi_variable_inequality")
+                    if rel == ">=" and k == 0 and v > 0 and j < mapped_dim and j not in nonneg and processed_once \
+                            and pt[j] < 0:
+                        remerge_negative = True     # merge_split_variable changes the basic solution
+            if remerge_negative and multi_satisfied:
+                prof.add("pending_sign_restriction_remerges_split_variable_with_multi_variable_inequality")
+            # the previous processing call solved a MIP: last_generator is the branch-and-bound point,
+            # not the basic solution of the tableau, yet "already satisfied" is judged against it
+            if multi_satisfied and processed_once and mip_when_processed:
+                prof.add("pending_multi_variable_inequality_after_mip_processing")
             if batch:
                 last_profile = prof
             # bookkeeping as in parse_constraints (cases 4-7 mark the variable nonnegative)
@@ -138,6 +169,12 @@ def pending_batch_profile(lin):
             batch = []
             mapped_dim = dim
             processed_once = True
+            mip_when_processed = ints_now
+            p2 = reported_point(t, dim)
+            if p2 is not None:
+                last_point = p2
+            elif len(t) > 3 and t[2] in ("solve", "sat", "fpoint") and t[3] in ("unfeasible", "0", "none"):
+                last_point = None
     return last_profile
 
 
@@ -179,7 +216,8 @@ def classify(hist, idx, verdict):
         prof = pending_batch_profile(lineage(hist, trigger, slot) + ([toks] if kind != "okinv" else []))
         if prof:
             tags += sorted(prof)
-            if "pending_sign_restriction_remerges_split_variable_with_multi_variable_inequality" in prof and \
+            if (("pending_sign_restriction_remerges_split_variable_with_multi_variable_inequality" in prof) or
+                    ("pending_multi_variable_inequality_after_mip_processing" in prof)) and \
                     obligation in ("witness", "invariant", "optimum", "value", "status", "satisfiable", "incremental≠fresh"):
                 site = "MIP_Problem::process_pending_constraints"
     return {"site": site, "tags": tags}
